@@ -194,7 +194,7 @@ pub mod tstd {
         ensures #[trigger] slice_contains(s, x) == s.contains(x);
 
     pub broadcast group group_tstd {
-        axiom_slice_contains_eq, axiom_slice_contains_i32, axiom_slice_contains_usize, axiom_vec_into_iter_seq, axiom_cmp_min_i32, axiom_cmp_max_i32, axiom_cmp_max_usize, axiom_slice_sorted_unstable_i32, axiom_slice_sorted_i32,
+        axiom_slice_contains_eq, axiom_slice_contains_i32, axiom_slice_contains_usize, axiom_vec_into_iter_seq, axiom_cmp_min_i32, axiom_cmp_max_i32, axiom_cmp_max_usize, axiom_slice_sorted_unstable_i32, axiom_binary_search_i32, axiom_slice_sorted_i32,
     }
     pub uninterp spec fn into_iter_seq<T, I>(i: I) -> Seq<T>;
     pub assume_specification<T, A: Allocator, I: IntoIterator<Item = T>>[<Vec<T, A> as Extend<T>>::extend::<I>](v: &mut Vec<T, A>, iter: I)
@@ -356,6 +356,14 @@ pub mod tstd {
         ensures r >= v@.len();
     pub assume_specification<T, A: Allocator>[Vec::<T, A>::shrink_to_fit](v: &mut Vec<T, A>)
         ensures final(v)@ == old(v)@;
+    /// std: "If the value is found then Ok is returned, containing the index of the matching element ... If the slice is not sorted, the returned
+    /// result is unspecified and meaningless": an uninterpreted function of the slice and the value, with the documented facts for ascending i32 slices
+    pub uninterp spec fn binary_search_spec<T>(s: Seq<T>, x: T) -> Result<usize, usize>;
+    pub assume_specification<T: Ord>[<[T]>::binary_search](s: &[T], x: &T) -> (r: Result<usize, usize>)
+        ensures r == binary_search_spec(s@, *x), match r { Ok(i) => i < s@.len(), Err(i) => i <= s@.len() };
+    pub broadcast axiom fn axiom_binary_search_i32(s: Seq<i32>, x: i32)
+        requires forall|i: int, j: int| 0 <= i < j < s.len() ==> s[i] <= s[j],
+        ensures match #[trigger] binary_search_spec(s, x) { Ok(i) => i < s.len() && s[i as int] == x, Err(_) => !s.contains(x) };
     /// the unstable sort orders the slice like the stable one (std: "sorts the slice"); which of several equal elements comes first is the only difference
     pub uninterp spec fn slice_sorted_unstable<T>(s: Seq<T>) -> Seq<T>;
     pub assume_specification<T: Ord>[<[T]>::sort_unstable](s: &mut [T])
@@ -688,6 +696,11 @@ pub mod spec {
     pub fn to_pstring_w<T: crate::push::stack::PushPrint>(x: &T) -> (r: String)
         ensures r@ == pstr_of(*x),
     { x.to_pstring() }
+    // R20: `m.entry(k).or_insert(v);` (std: "ensures a value is in the entry by inserting the default if empty")
+    #[verifier::external_body]
+    pub fn map_entry_or_insert<K: core::cmp::Eq + core::hash::Hash, V>(m: &mut std::collections::HashMap<K, V>, k: K, v: V)
+        ensures vstd::std_specs::hash::obeys_key_model::<K>() ==> final(m)@ == (if old(m)@.contains_key(k) { old(m)@ } else { old(m)@.insert(k, v) }),
+    { m.entry(k).or_insert(v); }
     // R19: the two one-argument format! calls of the crate's printing functions
     #[verifier::external_body]
     pub fn format_sp_display<T: core::fmt::Display>(x: &T) -> (r: String)
